@@ -11,6 +11,11 @@ Binding:
         restart; several series with colliding tag concatenations must stay separate.  Besides the selector of each
         series, the metric name alone is queried over the whole range and over prefix / suffix windows that leave some
         of its series without any datapoint in range: the others must still come back complete and bit-exact.
+  (life) spec/MetricsLifecycle.tla (put / block flush / segment rotation / restart in any order; NothingMoves checked
+        exhaustively, LoseOpenOnRestart must violate) generates random-walk histories whose "check" steps carry the answers
+        the specification requires for every selector x prefix / suffix / full window; each history is performed on the real
+        engine (restart = shutdown rotation + new process, puts continue afterwards) and every answer compared bit-exactly.
+        This replay found that a series first put after a segment rotation stayed invisible until the next tags tree flush.
 """
 import json
 import math
@@ -26,12 +31,17 @@ CLAIMED = True   # set by the lead after review; only claimed checks enter MANIF
 
 MANIFEST = dict(
     category="model_checking",
-    technique="TLA+ spec of the Gorilla codec case analysis (TLC exhaustive) + replay of every TLC-enumerated class sequence on the real codec and through OpenTSDB ingest/selector query across rotation and restart",
+    technique="TLA+ specs of the Gorilla codec case analysis and of the metrics store lifecycle (TLC exhaustive) + replay of every TLC-enumerated class sequence on the real codec and of TLC-generated lifecycle histories (put / block flush / segment rotation / restart / windowed selector queries with spec-computed answers) on the real engine",
     text=("spec/Gorilla.tla transcribes the encoder/decoder case analysis (delta-of-delta classes, XOR window reuse/new window, "
           "field widths); TLC checks BitExact/InSync/Geometry over all class sequences up to MaxLen. Every enumerated sequence "
           "is concretised against the real encoder state and run through the real compress package (round trip after each step "
           "+ spec-predicted stream length), and a seeded sample goes end to end: OpenTSDB ingest, selector query while open, "
-          "after block flush, size-driven segment rotation, shutdown rotation and restart, with colliding tag sets."),
+          "after block flush, size-driven segment rotation, shutdown rotation and restart, with colliding tag sets. "
+          "spec/MetricsLifecycle.tla models where an accepted datapoint lives (open block, flushed blocks, rotated segments) "
+          "under put / block flush / segment rotation / restart and what every selector x time window must return; TLC checks "
+          "NothingMoves exhaustively and generates random-walk histories whose check steps carry the required answers, which are "
+          "compared bit-exactly on the real engine (series sharing a metric name with colliding tag concatenations, puts "
+          "continuing after rotation and restart, windows that leave series empty)."),
     note=("Classes are (dod class, leading/trailing zero geometry); middle bits random per VERIF_SEED, not all 2^64 values. "
           "32-bit dod arithmetic modelled with unbounded integers. e2e uses finite values (JSON cannot carry NaN/Inf); several "
           "datapoints in the same second are not compared. Prometheus remote-write / OTLP metric ingest paths are covered by C16."),
@@ -262,6 +272,111 @@ def e2e_case(binary, case):
     return fails
 
 
+LIFE_SERIES = {"s1": ("cpu", {"a": "bc"}), "s2": ("cpu", {"ab": "c"}), "s3": ("cpu", {"bc": "a"}), "s4": ("cpua", {"a": "bc"})}
+LIFE_GROUPS = [["s1", "s2", "s3"], ["s4"]]
+
+
+def lifecycle_case(binary, case):
+    """One TLC-generated history of spec/MetricsLifecycle.tla on the real engine.  Every "check" step of the history carries
+    the answers the specification requires (selector x window -> set of (series, time)); they are compared bit-exactly."""
+    beh, seed = case["beh"], case["seed"]
+    rnd = random.Random(seed)
+    step = rnd.choice([10, 10, 60, 7])
+    const = {m: rnd.choice([None, 0x3ff0000000000000, 0x4059000000000000, 0]) for m in LIFE_SERIES}
+
+    def ts_of(m, t):
+        return T0 + t * step + ((seed * 31 + ord(m[1]) * 7 + t * 13) % 3 if step > 7 else 0)
+    vals = {}
+
+    def bits_of(m, t):
+        if (m, t) not in vals:
+            b = const[m]
+            while b is None or not finite(b):
+                b = rnd.getrandbits(64)
+            vals[(m, t)] = b
+        return vals[(m, t)]
+    d = vlib.scratch("c08life")
+    fails = []
+    dr = None
+    rotated_at = None
+    try:
+        dr = vlib.Driver(binary)
+        dr.ok("init", dir=d)
+        for k, st in enumerate(beh["steps"]):
+            op = st["op"]
+            if op == "put":
+                name, tags = LIFE_SERIES[st["s"]]
+                r = dr.ok("otsdb", body=json.dumps([{"metric": name, "tags": tags, "timestamp": ts_of(st["s"], st["t"]),
+                                                     "value": hex2f("%016x" % bits_of(st["s"], st["t"]))}]))
+                if r["failed"] != 0 or r["ok"] != 1:
+                    fails.append(("ingest-rejected", "step %d: otsdb put of %s t=%d answered %s" % (k, st["s"], st["t"], r)))
+            elif op == "blockflush":
+                dr.ok("mblockflush")
+            elif op == "segrotate":
+                dr.ok("msizerotate", block_bytes=1, seg_bytes=1)
+                rotated_at = time.time()
+            elif op == "restart":
+                dr.ok("mrotate")
+                dr.quit()
+                dr = vlib.Driver(binary)
+                dr.ok("init", dir=d, wait_ms=400)
+                rotated_at = None
+            elif op == "check":
+                def once():
+                    bad = []
+                    for ans in st["answers"]:
+                        sel = sorted(ans["sel"])
+                        forms = []
+                        if len(sel) == 1:
+                            name, tags = LIFE_SERIES[sel[0]]
+                            forms.append(name + "{" + ",".join('%s="%s"' % kv for kv in sorted(tags.items())) + "}")
+                        if sel in LIFE_GROUPS:
+                            forms.append(LIFE_SERIES[sel[0]][0])
+                        ws, we = T0 + ans["a"] * step, T0 + ans["b"] * step + step - 1
+                        exp = {}
+                        for m, t in ans["expect"]:
+                            name, tags = LIFE_SERIES[m]
+                            exp.setdefault(gid_of({"name": name, "tags": tags}), {})[ts_of(m, t)] = "%016x" % bits_of(m, t)
+                        for text in forms:
+                            r = dr.ok("mquery", promql=text, start=ws, end=we, step=1)
+                            if "qerr" in r:
+                                bad.append(("query-error", "step %d: %s over [%d,%d]: %s" % (k, text, ws, we, r["qerr"])))
+                                continue
+                            got = {g: {p[0]: p[1] for p in pts} for g, pts in r.get("series", {}).items()}
+                            if got != exp:
+                                miss = sorted(g for g in exp if g not in got)
+                                extra = sorted(g for g in got if g not in exp)
+                                diff = [(g, sorted(set(exp[g].items()) ^ set(got[g].items()))[:3]) for g in exp if g in got and exp[g] != got[g]]
+                                kind = "series-missing" if miss else "series-unexpected" if extra else "datapoints"
+                                bad.append((kind, "step %d (%s): %s over window [%d,%d] (model window [%d,%d]): series missing %s, unexpected %s, differing %s" % (
+                                    k, " ".join(x["op"] for x in beh["steps"][:k]), text, ws, we, ans["a"], ans["b"], miss[:3], extra[:3], diff[:2])))
+                                if len(bad) >= 3:
+                                    return bad
+                    return bad
+                bad = once()
+                # a rotated segment becomes visible to queries through the 5 s metadata refresh loop (a step of its own in
+                # MetricsVisibility.tla): wait for it, a verdict is what remains afterwards
+                while bad and rotated_at is not None and time.time() < rotated_at + 12:
+                    time.sleep(0.5)
+                    bad = once()
+                seen = set()
+                for kind, what in bad:
+                    if kind not in seen:
+                        seen.add(kind)
+                        fails.append((kind, what))
+                if fails:
+                    break
+    except vlib.DriverDead as e:
+        if e.kind == "hang":
+            raise vlib.Infra("engine did not answer in time (machine load?): %s" % e)
+        fails.append(("driver-died", str(e)))
+    finally:
+        if dr is not None:
+            dr.quit()
+        vlib.rmtree(d)
+    return fails
+
+
 def identity_case(binary, series, seed):
     """All series of the SeriesIdentity model in ONE engine: each gets its own value at the same timestamp; by-name queries must
     return exactly as many series as were ingested, each with its own value; also after block flush and restart."""
@@ -423,6 +538,43 @@ def run(chk):
                 chk.violation("C08:e2e:driver-died", "engine process died during metrics scenario: " + detail, c)
             else:
                 chk.violation("C08:e2e:" + kind, detail, c)
+    # ---- (life) histories of spec/MetricsLifecycle.tla: put / block flush / segment rotation / restart in any order, the
+    # answers required by the specification after each stretch
+    rl = vlib.run_tlc("MC_MetricsLifecycle", "MC_MetricsLifecycle.cfg", timeout=900)
+    vlib.tlc_must_hold(rl, "MetricsLifecycle exhaustive")
+    chk.add_tlc("MC_MetricsLifecycle", rl, "NothingMoves / AnswerIsStored; 3 series, times 1..3, 7 steps, 1 restart")
+    rl2 = vlib.run_tlc("MC_MetricsLifecycle", "MC_MetricsLifecycle_loseopen.cfg", timeout=600)
+    if "NothingMoves" not in rl2.violated:
+        raise vlib.Infra("model sensitivity lost: a restart that forgets the open block no longer violates NothingMoves")
+    life, rg = vlib.tlc_generate("Gen_MetricsLifecycle", "Gen_MetricsLifecycle.cfg", simulate="num=%d" % (400 if quick else 3000), depth=17,
+                                 seed=chk.seed, timeout=600)
+    chk.add_tlc("Gen_MetricsLifecycle", rg, "random walks of 16 steps over 4 series (3 share a metric name), times 1..6, <=2 restarts, <=1 segment rotation")
+    life = vlib.dedup(life)
+    # prefer histories that put into a series again after a restart / rotation and that check more than once
+    def life_score(b):
+        ops = [x["op"] for x in b["steps"]]
+        sc_ = ops.count("check")
+        for i, o in enumerate(ops):
+            if o in ("restart", "segrotate", "blockflush") and "put" in ops[i + 1:]:
+                sc_ += 2
+        return sc_
+    life.sort(key=lambda b: (-life_score(b), json.dumps(b, sort_keys=True)))
+    nl = 16 if quick else 160
+    chosen = life[:nl // 2] + vlib.sample(life[nl // 2:], nl - nl // 2, chk.seed)
+    lcases = [{"idx": i, "seed": chk.seed * 104729 + i, "beh": b} for i, b in enumerate(chosen)]
+    lres = vlib.pmap(lambda c: lifecycle_case(binary, c), lcases)
+    for c, fl in zip(lcases, lres):
+        chk.replayed(1)
+        chk.count(("life", json.dumps([x["op"] + str(x.get("s", "")) + str(x.get("t", "")) for x in c["beh"]["steps"]])), nontrivial=True)
+        seen = set()
+        for kind, detail in fl:
+            if kind in seen:
+                continue
+            seen.add(kind)
+            chk.violation("C08:life:" + kind, detail, {"kind": "lifecycle", "seed": c["seed"],
+                                                        "steps": [{k2: v2 for k2, v2 in x.items() if k2 != "answers"} for x in c["beh"]["steps"]]})
+    chk.cov["lifecycle"] = {"histories_generated": len(life), "replayed": len(lcases),
+                            "checks_per_history": round(sum(sum(1 for x in c["beh"]["steps"] if x["op"] == "check") for c in lcases) / max(1, len(lcases)), 1)}
     chk.sample({"kind": "e2e", "case": {"series": [{"name": s["name"], "tags": s["tags"],
                                                     "pts": [[t, "%016x" % b] for t, b in s["pts"]]} for s in cases[0]["series"]],
                                         "mid": cases[0]["mid"]}})
